@@ -29,6 +29,7 @@ async def _bridge_life(nports: int, acts: List[str]) -> str:
     def cb(device):
         count[0] += 1
     bridge = SwitcherBridge(cb, list(ports))
+    other_bridge = [None]       # a second bridge OBJECT configured with the same ports (created when first used)
     others = {}
     tx = socket.socket(socket.AF_INET, socket.SOCK_DGRAM)
     dgram = BH.sentinel_datagram(0).replace(BH.SENTINEL_NAME.encode(), b"xx-ordinary")
@@ -49,6 +50,19 @@ async def _bridge_life(nports: int, acts: List[str]) -> str:
                             await bridge.__aexit__(None, None, None)
                         else:
                             await bridge.stop()
+                    elif a in ("ostop", "ostart"):
+                        # another bridge object with the same ports, never running: stopping it, or trying (in vain, while this
+                        # one holds the ports) to start it, is none of this bridge's business
+                        if other_bridge[0] is None:
+                            other_bridge[0] = SwitcherBridge(lambda d: None, list(ports))
+                        try:
+                            await (other_bridge[0].stop() if a == "ostop" else other_bridge[0].start())
+                        except OSError:
+                            pass
+                        if other_bridge[0].is_running:      # it could start (this bridge was not running): stop it again at once
+                            await other_bridge[0].stop()
+                            await asyncio.sleep(0)
+                            await asyncio.sleep(0)
                     elif a.startswith("sstop:"):
                         # a broadcast is on its way (sent k loop turns ago) when stop() is called: whatever happens to it, no
                         # callback may come once stop() has returned
@@ -108,6 +122,8 @@ async def _bridge_life(nports: int, acts: List[str]) -> str:
         finally:
             try:
                 await bridge.stop()
+                if other_bridge[0] is not None:
+                    await other_bridge[0].stop()
             except Exception:
                 pass
             for s in others.values():
@@ -136,6 +152,7 @@ class Device:
     def __init__(self):
         self.open = 0
         self.eofs = 0
+        self.resets = 0            # connections that ended with a reset instead of an orderly end-of-stream
         self.garbage = False
         self.hangup = False        # answer the next frame by half-closing the connection
         self.server = None
@@ -171,10 +188,21 @@ class Device:
                     writer.write(bytes.fromhex(H.state_reply(1, 100, 10, 20, 3600)))
                 await writer.drain()
         except (ConnectionResetError, BrokenPipeError):
-            self.eofs += 1
+            self.resets += 1
         finally:
             self.open -= 1
             writer.close()
+
+    async def pause(self):
+        """stop listening (connections are refused) but keep the port number for resume()"""
+        self.server.close()
+        try:
+            await asyncio.wait_for(self.server.wait_closed(), 2)
+        except Exception:  # noqa
+            pass
+
+    async def resume(self):
+        self.server = await asyncio.start_server(self._serve, "127.0.0.1", self.port, reuse_address=True)
 
     async def stop(self):
         self.server.close()
@@ -206,21 +234,43 @@ async def _client_life(api_type: str, acts: List[str]) -> str:
         r, w = await real_open(host="127.0.0.1", port=target["port"], family=family)
         transports.append(w.transport)
         return r, w
-    saved = A.open_connection
-    A.open_connection = redirected
     cls = A.SwitcherType2Api if api_type == "type2" else A.SwitcherType1Api
     api = cls("127.0.0.1", "a123bc", "18")
+    saved = A.open_connection
+    # The client is pointed at the scripted device through its own address and port attributes, so that the library's own way of
+    # opening the connection is what runs; only if a client has no such attributes is `open_connection` replaced instead.
+    by_attr = hasattr(api, "_port") and hasattr(api, "_ip_address")
+    if not by_attr:
+        A.open_connection = redirected
+
+    def aim(port):
+        target["port"] = port
+        if by_attr:
+            api._ip_address, api._port = "127.0.0.1", port
+
+    def note_transport():
+        w = getattr(api, "_writer", None)
+        t = getattr(w, "transport", None)
+        if t is not None and all(t is not x for x in transports):
+            transports.append(t)
     out = []
     try:
         for a in acts:
             res = "ok"
             try:
                 if a == "cok":
-                    target["port"] = dev.port
+                    aim(dev.port)
                     await api.connect()
                 elif a == "cref":
-                    target["port"] = dead
+                    aim(dead)
                     await api.connect()
+                elif a == "crefs":          # refused on the device's OWN address: it is not listening for a moment, then it is again
+                    aim(dev.port)
+                    await dev.pause()
+                    try:
+                        await api.connect()
+                    finally:
+                        await dev.resume()
                 elif a == "op":
                     dev.garbage = False
                     r = await (api.get_state() if api_type == "type1" else api.stop())
@@ -233,11 +283,11 @@ async def _client_life(api_type: str, acts: List[str]) -> str:
                 elif a == "disc":
                     await api.disconnect()
                 elif a == "withref":            # `async with` while the device refuses the connection: the error comes out of the
-                    target["port"] = dead       # entry, the client stays as it was
+                    aim(dead)                   # entry, the client stays as it was
                     async with api:
                         res = "entered-although-refused"
                 elif a == "withop":             # a body that USES the connection: inside it the client is connected and an operation works
-                    target["port"] = dev.port
+                    aim(dev.port)
                     dev.garbage = False
                     async with api:
                         inside = api.connected
@@ -245,7 +295,7 @@ async def _client_life(api_type: str, acts: List[str]) -> str:
                     if not inside:
                         res = "not-connected-inside-the-context"
                 elif a == "with" or a.startswith("withx"):
-                    target["port"] = dev.port
+                    aim(dev.port)
                     body_exc = None
                     if a.startswith("withx"):
                         body_exc = BODY_EXCEPTIONS[a.split(":", 1)[1] if ":" in a else "BodyError"]()
@@ -267,6 +317,7 @@ async def _client_life(api_type: str, acts: List[str]) -> str:
             # what the device sees.  The number of client-side streams that are not closed says what it WILL see once the accept /
             # the end-of-stream has travelled through the loop: wait for that (up to 2 s, so that a loaded machine cannot make the
             # observation early), then report the device's own count whatever it is.
+            note_transport()
             want = sum(1 for t in transports if not t.is_closing())
             for _ in range(4000):
                 await asyncio.sleep(0.0005)
@@ -274,7 +325,8 @@ async def _client_life(api_type: str, acts: List[str]) -> str:
                     break
                 want = sum(1 for t in transports if not t.is_closing())
             await asyncio.sleep(0.001)
-            out.append(f"{res}:{int(api.connected)}:{dev.open}")
+            out.append(f"{res}:{int(api.connected)}:{dev.open}" + ("R" if dev.resets else ""))
+            dev.resets = 0
     finally:
         A.open_connection = saved
         try:
